@@ -482,8 +482,15 @@ class Entity(object):
                     self.filename = self.filename[1:-1]
             if 'filename*' in disp.params:
                 # @see https://tools.ietf.org/html/rfc5987
-                encoding, lang, filename = disp.params['filename*'].split("'")
-                self.filename = unquote(str(filename), encoding)
+                try:
+                    encoding, lang, filename = (
+                        disp.params['filename*'].split("'"))
+                    self.filename = unquote(str(filename), encoding)
+                except (LookupError, ValueError):
+                    # Not charset'lang'value, or a charset that names no
+                    # usable text codec: "the parameter ought to be
+                    # ignored" (RFC 6266 sec 4.3), keeping any "filename".
+                    pass
 
     def read(self, size=None, fp_out=None):
         """Read bytes from the connection."""
